@@ -116,7 +116,17 @@ def tie_calls(case):
                 if (c1 == c2 or t1 == t2) and abs(w1 - w2) <= MARGIN:
                     ties.add(ci)
         claimants = {c for c, _ in claim}
-        taken = {r["id"] for r in call["recs"] if r["vt"] == "V" and r["id"] in pre}
+        # the appearance stage, re-derived (not read from the implementation's records): best-fit over the claims sorted by
+        # weight, a detection's heaviest element decides; forced whenever no two competing claims are within the margin
+        taken = set()
+        won, first = set(), {}
+        for (c1, t1), w1 in sorted(items, key=lambda x: -x[1]):
+            if t1 in won:
+                first.setdefault(c1, None)
+            else:
+                won.add(t1)
+                first.setdefault(c1, t1)
+        taken = {t for t in first.values() if t is not None}
         pairs = {}
         for d in call["dets"]:
             if d["uid"] in claimants:
@@ -299,26 +309,33 @@ def c04_visual_stage(chk):
         if clause in seen:
             continue
         seen.add(clause)
-        c = inters[i]
-        pair = clause == "run-pair"
+        try:
+            c = inters[i]
+            pair = clause == "run-pair"
 
-        def fails(line, clause=clause, pair=pair):
-            ff, _, _ = check_line(line, need_pair=pair)
-            return any(k == clause for k, _, _ in ff)
-        calls = [x for x in c["spec"]["calls_txt"].split(";") if x]
-        line = base.spec_with_calls(c["spec"]["line"], ";".join(calls[:ci0 + 1]))
-        if not fails(line):
-            line = c["spec"]["line"]
-        small = base.shrink_spec(line, fails, budget=30)
-        small = _shrink_dets(small, fails, budget=30)
-        ff, _, inter = check_line(small, need_pair=pair)
-        recs = [(call["scene"], [(d["uid"], r["id"], r["len"], r["vt"]) for d, r in zip(call["dets"], call["recs"])]) for call in (inter["calls"] if inter else [])]
-        chk.violation("C04:visual:" + clause, what0,
-                      {"stage": "visual_c04", "input": small, "tracker": c["spec"]["trk"], "clause": clause,
-                       "oracle_failures": [list(x) for x in (ff or f)[:6]],
-                       "records_per_call (scene, [(detection uid, track id, length, voting)])": recs,
-                       "other_failing_histories": len(failing) - 1,
-                       "replay_cmd": "./check C04 --replay <this file>   (runs the interleaved history and its single-scene projections through: visual replay --file <spec>)"})
+            def fails(line, clause=clause, pair=pair):
+                ff, _, _ = check_line(line, need_pair=pair)
+                return any(k == clause for k, _, _ in ff)
+            calls = [x for x in c["spec"]["calls_txt"].split(";") if x]
+            line = base.spec_with_calls(c["spec"]["line"], ";".join(calls[:ci0 + 1]))
+            if not fails(line):
+                line = c["spec"]["line"]
+            small = base.shrink_spec(line, fails, budget=30)
+            small = _shrink_dets(small, fails, budget=30)
+            ff, _, inter = check_line(small, need_pair=pair)
+            recs = [(call["scene"], [(d["uid"], r["id"], r["len"], r["vt"]) for d, r in zip(call["dets"], call["recs"])]) for call in (inter["calls"] if inter else [])]
+            chk.violation("C04:visual:" + clause, what0,
+                          {"stage": "visual_c04", "input": small, "tracker": c["spec"]["trk"], "clause": clause,
+                           "oracle_failures": [list(x) for x in (ff or f)[:6]],
+                           "records_per_call (scene, [(detection uid, track id, length, voting)])": recs,
+                           "other_failing_histories": len(failing) - 1,
+                           "replay_cmd": "./check C04 --replay <this file>   (runs the interleaved history and its single-scene projections through: visual replay --file <spec>)"})
+        except Exception as ex:      # the shrinker / re-run must never take the check down: report the unshrunk history
+            import traceback
+            line0 = inters[i]["spec"]["line"] if "spec" in inters[i] else inters[i].get("line")
+            chk.violation("C04:visual:" + clause, what0,
+                          {"stage": "visual_c04", "input": line0, "clause": clause, "oracle_failures": [list(x) for x in f[:6]],
+                           "note": "not shrunk: " + traceback.format_exc()[-800:]})
         if len(seen) >= 2:
             break
 
